@@ -15,6 +15,7 @@ from rv import core, excelgen, monitors
 from rv.fingerprint import fp, diff
 
 LEVEL = 'exploration'
+LEVEL_TEXT = "The real Excel workflow on generated experiments; every returned sample compared bit for bit with a hand composition of the documented steps, statistics columns with the library statistics of the gated sample, histogram rows with np.histogram over the library's edges; the library steps run under their own monitors in situ. Exploration."
 TECHNIQUE = 'runtime contract on the Excel workflow vs hand composition of documented steps, with library-step monitors attached in situ'
 RULE = ('generated experiments: 1..3 instruments with different channel names, 0..2 bead rows, 1..4 sample rows x '
         'per-channel units from {empty, Channel, RFI, a.u., au, MEF, case/whitespace variants} x gate fractions x integer '
